@@ -44,9 +44,22 @@ Sources == << <<A>>, <<A, LB, Star, RB>>, <<A, Flat>>, <<A, LB, IntT(<<48>>), Co
               <<LP, A, OrT, A, LB, Star, RB, RP>>, <<A, PipeT, LP, CurT, OrT>> \o Fn(<<107,101,121,115>>, <<RootT, Dot, B>>) \o <<RP>>,
               <<LetT, VarT(<<36,119>>), AssignT, A, InT, LP, VarT(<<36,119>>), OrT>> \o Fn(<<107,101,121,115>>, <<B>>) \o <<RP>> >>
 MutFns == << <<115,111,114,116>>, <<114,101,118,101,114,115,101>> >>
+\* a reordering function applied to the result of another one (round 11, seed C15-j: sort returns its input
+\* when that is already ordered, reverse works in place on "a fresh array"): every ordered pair over sources
+\* that hand the caller's array on, and the same array read a second time next to it; the pool holds an
+\* ascending and a descending document for them
+Sources2 == << <<A>>, <<A, LB, Star, RB>>, Fn(<<116,111,95,97,114,114,97,121>>, <<A>>), <<A, OrT, A>>, <<Json(<<96,91,49,44,50,44,51,93,96>>)>> >>
+Mutators2 == [i \in 1..(Len(Sources2) * 4) |->
+                LET src == Sources2[((i - 1) \div 4) + 1]
+                    f == MutFns[(((i - 1) % 4) \div 2) + 1]  g == MutFns[((i - 1) % 2) + 1] IN Fn(f, Fn(g, src))]
+             \o << Fn(<<114,101,118,101,114,115,101>>, Fn(<<115,111,114,116,95,98,121>>, <<A, Comma, AmpT>> \o Fn(<<116,111,95,115,116,114,105,110,103>>, <<CurT>>))),
+                   <<LB, A, LB, IntT(<<48>>), RB, Comma>> \o Fn(<<114,101,118,101,114,115,101>>, Fn(<<115,111,114,116>>, <<A>>)) \o <<Comma, A, LB, IntT(<<48>>), RB, RB>>,
+                   <<LetT, VarT(<<36,118>>), AssignT, A, InT, LB, VarT(<<36,118>>), LB, IntT(<<48>>), RB, Comma>> \o Fn(<<114,101,118,101,114,115,101>>, Fn(<<115,111,114,116>>, <<VarT(<<36,118>>)>>)) \o <<Comma, VarT(<<36,118>>), RB>>,
+                   <<LetT, VarT(<<36,118>>), AssignT, Json(<<96,91,49,44,50,44,51,93,96>>), InT, LB, VarT(<<36,118>>), LB, IntT(<<48>>), RB, Comma>> \o Fn(<<114,101,118,101,114,115,101>>, Fn(<<115,111,114,116>>, <<VarT(<<36,118>>)>>)) \o <<RB>> >>
 Mutators == [i \in 1..(Len(Sources) * 2) |->
                LET src == Sources[((i - 1) \div 2) + 1]  f == MutFns[((i - 1) % 2) + 1] IN Fn(f, src)]
             \o [i \in 1..Len(Sources) |-> Fn(<<115,111,114,116,95,98,121>>, Sources[i] \o <<Comma, AmpT>> \o Fn(<<116,111,95,115,116,114,105,110,103>>, <<CurT>>))]
+            \o Mutators2
             \o << <<LetT, VarT(<<36,118>>), AssignT, A, InT>> \o Fn(<<115,111,114,116>>, <<VarT(<<36,118>>)>>),
                   <<LetT, VarT(<<36,118>>), AssignT, A, LB, Star, RB, InT, LB>> \o Fn(<<114,101,118,101,114,115,101>>, <<VarT(<<36,118>>)>>) \o <<Comma, VarT(<<36,118>>), RB>> >>
 
